@@ -402,6 +402,9 @@ func (e *Engine) Solve(jobs []solveJob, cfg SolverCfg) {
 				}
 				// quick attempt with the first solver, then all solvers concurrently (first definite answer wins)
 				fullT := cfg.TimeoutS
+				if o.Quick && fullT > 3 {
+					fullT = 3
+				}
 				if want == "sat" && fullT > 5 {
 					fullT = 5 // vacuity probes are guards, not claims: an inconclusive probe is tolerated
 				}
@@ -485,7 +488,7 @@ func (e *Engine) Solve(jobs []solveJob, cfg SolverCfg) {
 		var groups []*group
 		idx := map[*VC]*group{}
 		for _, j := range jobs {
-			if j.o.Folded || j.o.Kind == "pre-sat" || j.o.Kind == "vacuity" {
+			if j.o.Folded || j.o.Kind == "pre-sat" || j.o.Kind == "vacuity" || j.o.Quick {
 				continue
 			}
 			g := idx[j.vc]
@@ -536,7 +539,19 @@ func (e *Engine) Solve(jobs []solveJob, cfg SolverCfg) {
 			}()
 		}
 		for _, g := range groups {
-			gch <- g
+			// a large VC is cut into chunks so that its obligations are solved in parallel
+			const chunk = 40
+			if len(g.obls) <= chunk+chunk/2 {
+				gch <- g
+				continue
+			}
+			for i := 0; i < len(g.obls); i += chunk {
+				j := i + chunk
+				if j > len(g.obls) {
+					j = len(g.obls)
+				}
+				gch <- &group{vc: g.vc, obls: g.obls[i:j]}
+			}
 		}
 		close(gch)
 		gwg.Wait()
